@@ -33,8 +33,11 @@ Theorem C12_splice_out_elements : forall (A : Type) (l : list A) (i k j : nat),
 Proof. exact @splice_out_nth. Qed.
 Print Assumptions C12_splice_out_elements.
 
-(* append: in place (rest of the spare capacity untouched) iff there is room,
-   otherwise a new array, zero behind the appended elements *)
+(* MODEL PRIMITIVE (trusted append contract), not evidence for the property: C12_append and
+   C12_append_tail only unfold the model's [append] (in place, rest of the spare capacity untouched,
+   iff there is room; otherwise a new array, zero behind the appended elements). They are reading
+   aids for the statements below; the contract itself is trusted Go runtime behaviour, compared
+   with the real runtime by the harness. *)
 Theorem C12_append : forall (A : Type) growth (zero : A) (s : gslice A) (xs : list A), wf s ->
   append growth zero s xs =
   GS (visible s ++ xs ++ append_tail growth zero s (length xs)) (len s + length xs).
@@ -48,6 +51,14 @@ Theorem C12_append_tail : forall (A : Type) growth (zero : A) (s : gslice A) (k 
      len s + k <= new_cap growth (cap s) (len s + k)).
 Proof. exact @append_tail_cases. Qed.
 Print Assumptions C12_append_tail.
+
+(* Note on strength: the closed forms below describe the WHOLE backing array and the capacity.
+   The property only fixes the visible part (the [..._visible] theorems, C12_fill, C12_reverse and the
+   visible parts of C12_concat / C12_clone / C12_repeat / C12_grow). What the closed forms say in
+   addition (in-place append, stale cells behind the new length after a removal, capacity = length of
+   the Repeat / Concat / Clone results, the slice's state after a panicking Insert) is true of the
+   transcribed code but is not required by the property and not part of the correspondence comparison.
+   The inserted [vs] is a separate array: values aliasing the destination are excluded. *)
 
 (* ---- Insert / InsertSlice: the whole resulting array, for every valid position ---- *)
 
@@ -123,7 +134,8 @@ Theorem C12_remove_slice_visible : forall (A : Type) (s : gslice A) (i k : nat),
 Proof. exact @remove_slice_visible. Qed.
 Print Assumptions C12_remove_slice_visible.
 
-(* invalid positions panic before anything is written: slice and array unchanged *)
+(* invalid positions panic before anything is written: slice and array unchanged
+   (RemoveSlice: for length >= 0; negative lengths are outside the property, no theorem) *)
 Theorem C12_remove_panics : forall (A : Type) (s : gslice A) (index : Z),
   (index < 0 \/ Z.of_nat (len s) <= index)%Z ->
   remove s index = (s, Panic IndexOutOfRange).
